@@ -475,3 +475,84 @@ func runSession(s Session) vkit.Result {
 }
 
 func TestCutPoints(t *testing.T) { vkit.Check(t, genSession, runSession) }
+
+// TestBurstWhileWatcherSlow: a connection holding many subscriptions (more than the presence queue holds) ends
+// while the presence watcher is not reading its socket. Every subscription is still removed and the watcher
+// is still told about every one of them, in order (subscribe before unsubscribe), once it reads again.
+func TestBurstWhileWatcherSlow(t *testing.T) {
+	rounds := vkit.N(2)
+	for round := 0; round < rounds; round++ {
+		e, err := getEnv()
+		if err != nil {
+			t.Fatal(err)
+		}
+		n := 150 + 37*round
+		c := map[string]int{"subscriptions": n, "round": round}
+		fail := func(msg string) {
+			shared = nil
+			vkit.ReportFailure(t.Name(), c, msg, "")
+			t.Fatal(msg)
+		}
+		v := e.b.Attach("burst-victim")
+		if err := v.Connect("burst", "bob", nil); err != nil {
+			t.Fatal(err)
+		}
+		p := packets.NewControlPacket(packets.Subscribe).(*packets.SubscribePacket)
+		p.MessageID = 5
+		for i := 0; i < n; i++ {
+			p.Topics = append(p.Topics, fmt.Sprintf("%s/a/burst%d/", e.key, i))
+			p.Qoss = append(p.Qoss, 0)
+		}
+		e.watcher.Pause()
+		if err := v.Send(p); err != nil {
+			e.watcher.Resume()
+			t.Fatal(err)
+		}
+		time.Sleep(150 * time.Millisecond) // the presence queue (100 slots) is full, the victim's request waits
+		e.watcher.Resume()
+		if _, _, err := v.Until(packets.Suback); err != nil {
+			fail("SUBSCRIBE with " + fmt.Sprint(n) + " topics while the presence watcher is slow: " + err.Error())
+		}
+		e.watcher.Pause()
+		v.Conn.Close()
+		time.Sleep(150 * time.Millisecond)
+		e.watcher.Resume()
+		if err := v.WaitClosed(); err != nil {
+			fail("connection with " + fmt.Sprint(n) + " subscriptions did not finish closing: " + err.Error())
+		}
+		if d := dump(e.b); fmt.Sprint(d) != fmt.Sprint(e.baseline) {
+			fail(fmt.Sprintf("index has %d entries after the connection ended, baseline %d", len(d), len(e.baseline)))
+		}
+		seen, err := e.presenceBarrier()
+		if err != nil {
+			fail(err.Error())
+		}
+		state := map[string]int{} // 0 none, 1 subscribed, 2 unsubscribed
+		for _, nt := range seen {
+			switch {
+			case nt.Event == "subscribe" && state[nt.Channel] == 0:
+				state[nt.Channel] = 1
+			case nt.Event == "unsubscribe" && state[nt.Channel] == 1:
+				state[nt.Channel] = 2
+			default:
+				fail(fmt.Sprintf("presence watcher saw %q for %s out of order or twice (state %d)", nt.Event, nt.Channel, state[nt.Channel]))
+			}
+			if nt.Who.Username != "bob" {
+				fail("notification carries username " + nt.Who.Username)
+			}
+		}
+		done := 0
+		for _, s := range state {
+			if s == 2 {
+				done++
+			}
+		}
+		if done != n || len(state) != n {
+			fail(fmt.Sprintf("presence watcher was told about %d subscribe/unsubscribe pairs (%d channels) of %d subscriptions of the connection that ended", done, len(state), n))
+		}
+		if _, err := e.by.Barrier(); err != nil {
+			fail(err.Error())
+		}
+		vkit.Record(t.Name(), c, vkit.OK(true, "burst-slow-watcher"))
+	}
+}
